@@ -334,8 +334,12 @@ def run(seed, tier, lean) -> Result:
         if same_ends: res.bump('same role name on both ends (lookups only)')
         if not probs and not same_ends:
             try:
-                from ..common import time_limit
+                from ..common import time_limit, CaseTimeout
                 with time_limit(30): probs, inst = overapprox_probs(spec, lg, r)
+            except CaseTimeout:
+                # (`CaseTimeout` is a BaseException: before genexec2 it escaped here and ended the whole run - seed 1, a model
+                # on which the pjs `==` of the real generation needs more than 30 s; counted as skipped, as `common.guarded` does)
+                res.bump('skipped: the real attack-graph generation ran for more than 30 s on this case')
             except Exception as e: res.notes.append('attack graph generation failed in C15: ' + type(e).__name__)
         depth2 = any(len(anc(spec, a['name'])) >= 3 for a in spec['assets'])
         if depth2 and any(any(by_sub for by_sub in spec['assets'] if by_sub['superAsset'] in (d['leftAsset'], d['rightAsset'])) for d in spec['associations']):
